@@ -35,5 +35,17 @@ BehExt == {<<K3, K4>>, <<K6, K6>>}
 
 
 
+\* square and square rank-deficient 3 x 3 cases with entries up to 8 (C2H6, H2CO, C3H8O = C2H6 + H2CO,
+\* CH4, H2O, C2H4O2 = 2 H2CO over C, H, O): exhaustive and replayed
+S1 == [x |-> <<2, 6, 0>>, d |-> MinusOne, t |-> 300]
+S2 == [x |-> <<1, 2, 1>>, d |-> 2, t |-> 300]
+S3 == [x |-> <<3, 8, 1>>, d |-> 0, t |-> 300]
+S4 == [x |-> <<1, 4, 0>>, d |-> 2, t |-> 296]
+S5 == [x |-> <<0, 2, 1>>, d |-> MinusOne, t |-> 300]
+S6 == [x |-> <<2, 4, 2>>, d |-> MinusOne, t |-> 300]
+SqKinds == {S1, S2, S3, S4, S5, S6}
+SqInit == {<<S1, S2>>, <<S2, S3>>, <<S4, S5>>, <<S1, S2, S3>>, <<S2, S5, S6>>}
+SqIns == {S3}
+SqExt == {<<S2, S3>>}
 View == <<refs, keys, off, tref, fitted, Len(h), h[Len(h)].act>>
 =============================================================================
